@@ -123,7 +123,12 @@ class Realizing:
             return f
 
         def call(*a, **k):
-            return f(*realize_all(a), **realize_all(k))
+            # arrays / tensors are passed by reference (in-place library calls such as
+            # rng.shuffle(indices) must act on the caller's object); everything else is realised
+            keep = lambda x: type(x).__module__.split(".")[0] in ("numpy", "torch")
+            a2 = [x if keep(x) else realize_all(x) for x in a]
+            k2 = {n: (x if keep(x) else realize_all(x)) for n, x in k.items()}
+            return f(*a2, **k2)
 
         return call
 
